@@ -232,6 +232,30 @@ func Drivers(nthreads int) []Driver {
 				}
 			}}
 		}},
+		{"11 every coercer from text: per-thread values, one thread repeating its own", nthreads, func() *Shared {
+			s := z.Struct(z.Schema{"t": z.Time(), "i": z.Int(), "f": z.Float64(), "b": z.Bool(), "s": z.String()})
+			ts := z.Time()
+			type D struct {
+				T time.Time
+				I int
+				F float64
+				B bool
+				S string
+			}
+			texts := []string{"2008-08-09T10:11:12Z", "2005-05-06T07:08:09Z", "2011-11-12T13:14:15Z"}
+			return &Shared{Thread: func(i int, out *[]string, yield func()) {
+				// the same text twice (anything remembered between the two must still be this thread's), then the record
+				for k := 0; k < 2; k++ {
+					var t time.Time
+					l := ts.Parse(texts[i%3], &t)
+					*out = append(*out, obsList(l, t.UTC().Format(time.RFC3339)))
+				}
+				var d D
+				m := s.Parse(map[string]any{"t": texts[(i+1)%3], "i": fmt.Sprint(100 + i), "f": fmt.Sprintf("%d.5", i), "b": []string{"true", "false", "on"}[i%3], "s": fmt.Sprintf("s%d", i)}, &d)
+				d.T = d.T.UTC()
+				*out = append(*out, obsMap(m, fmt.Sprintf("%s %d %v %v %s", d.T.Format(time.RFC3339), d.I, d.F, d.B, d.S)))
+			}}
+		}},
 		{"8 shared Time/Bool/Float schemas with defaults and OneOf lists", nthreads, func() *Shared {
 			list := []float64{1.5, 2.5}
 			t0 := time.Date(2024, 1, 1, 0, 0, 0, 0, time.UTC)
